@@ -407,40 +407,84 @@ impl VirtualSystem {
         flags: EnumSet<OpenFlag>,
         mode: Mode,
     ) -> Result<(Rc<RefCell<Inode>>, bool, bool)> {
-        let path = self.resolve_relative_path(Path::new(UnixStr::from_bytes(path.to_bytes())));
+        let mut path = self
+            .resolve_relative_path(Path::new(UnixStr::from_bytes(path.to_bytes())))
+            .into_owned();
         let umask = self.current_process().umask;
 
         let mut state = self.state.borrow_mut();
-        let file = match state.file_system.get(&path) {
-            Ok(inode) => {
-                if flags.contains(OpenFlag::Exclusive) {
-                    return Err(Errno::EEXIST);
+        let mut link_count = 0;
+        let file = loop {
+            match state.file_system.get(&path) {
+                Ok(inode) => {
+                    if flags.contains(OpenFlag::Exclusive) {
+                        return Err(Errno::EEXIST);
+                    }
+
+                    // `get` returns a symbolic link named by the last
+                    // component as is. Follow it unless told otherwise.
+                    let target = match &inode.borrow().body {
+                        FileBody::Symlink { target } => Some(target.clone()),
+                        _ => None,
+                    };
+                    if let Some(target) = target {
+                        link_count += 1;
+                        if flags.contains(OpenFlag::NoFollow)
+                            || link_count > FileSystem::SYMLOOP_MAX
+                        {
+                            return Err(Errno::ELOOP);
+                        }
+                        path.pop();
+                        path.push(target);
+                        continue;
+                    }
+
+                    if flags.contains(OpenFlag::Directory)
+                        && !matches!(inode.borrow().body, FileBody::Directory { .. })
+                    {
+                        return Err(Errno::ENOTDIR);
+                    }
+                    if matches!(access, OfdAccess::WriteOnly | OfdAccess::ReadWrite)
+                        && matches!(inode.borrow().body, FileBody::Directory { .. })
+                    {
+                        return Err(Errno::EISDIR);
+                    }
+                    if flags.contains(OpenFlag::Truncate)
+                        && let FileBody::Regular { content, .. } = &mut inode.borrow_mut().body
+                    {
+                        content.clear();
+                    };
+                    break inode;
                 }
-                if flags.contains(OpenFlag::Directory)
-                    && !matches!(inode.borrow().body, FileBody::Directory { .. })
-                {
-                    return Err(Errno::ENOTDIR);
+                Err(Errno::ENOENT) if flags.contains(OpenFlag::Create) => {
+                    let mut inode = Inode::new([]);
+                    inode.permissions = mode.difference(umask);
+                    let inode = Rc::new(RefCell::new(inode));
+                    // Create the file in the directory the path leads to,
+                    // which may be reached through symbolic links.
+                    let parent = match (path.parent(), path.file_name()) {
+                        (Some(parent), Some(name)) => {
+                            let mut parent = parent.to_path_buf();
+                            parent.push("");
+                            match state.file_system.get(&parent) {
+                                Ok(directory) => Some((directory, name)),
+                                Err(Errno::ENOENT) => None,
+                                Err(errno) => return Err(errno),
+                            }
+                        }
+                        _ => None,
+                    };
+                    if let Some((directory, name)) = parent
+                        && let FileBody::Directory { files } = &mut directory.borrow_mut().body
+                    {
+                        files.insert(Rc::from(name), Rc::clone(&inode));
+                    } else {
+                        state.file_system.save(&path, Rc::clone(&inode))?;
+                    }
+                    break inode;
                 }
-                if matches!(access, OfdAccess::WriteOnly | OfdAccess::ReadWrite)
-                    && matches!(inode.borrow().body, FileBody::Directory { .. })
-                {
-                    return Err(Errno::EISDIR);
-                }
-                if flags.contains(OpenFlag::Truncate)
-                    && let FileBody::Regular { content, .. } = &mut inode.borrow_mut().body
-                {
-                    content.clear();
-                };
-                inode
+                Err(errno) => return Err(errno),
             }
-            Err(Errno::ENOENT) if flags.contains(OpenFlag::Create) => {
-                let mut inode = Inode::new([]);
-                inode.permissions = mode.difference(umask);
-                let inode = Rc::new(RefCell::new(inode));
-                state.file_system.save(&path, Rc::clone(&inode))?;
-                inode
-            }
-            Err(errno) => return Err(errno),
         };
 
         let (is_readable, is_writable) = match access {
@@ -2609,6 +2653,143 @@ mod tests {
             .unwrap();
         assert_eq!(count, 4);
         assert_eq!(buffer[0..4], [1, 2, 3, 42]);
+    }
+
+    fn save_symlink(system: &VirtualSystem, path: &str, target: &str) {
+        let inode = Inode {
+            body: FileBody::Symlink {
+                target: target.into(),
+            },
+            permissions: Mode::default(),
+        };
+        let mut state = system.state.borrow_mut();
+        state
+            .file_system
+            .save(path, Rc::new(RefCell::new(inode)))
+            .unwrap();
+    }
+
+    fn open_now(
+        system: &VirtualSystem,
+        path: &CStr,
+        access: OfdAccess,
+        flags: EnumSet<OpenFlag>,
+    ) -> Result<Fd> {
+        system
+            .open(path, access, flags, Mode::ALL_9)
+            .now_or_never()
+            .unwrap()
+    }
+
+    #[test]
+    fn open_follows_symlink_to_regular_file() {
+        let system = system_with_symlink();
+        let fd = open_now(
+            &system,
+            c"/link",
+            OfdAccess::WriteOnly,
+            OpenFlag::Truncate.into(),
+        )
+        .unwrap();
+        system.write(fd, b"abc").now_or_never().unwrap().unwrap();
+
+        let state = system.state.borrow();
+        let file = state.file_system.get("/some/file").unwrap();
+        assert_matches!(&file.borrow().body, FileBody::Regular { content, .. } => {
+            assert_eq!(content, b"abc");
+        });
+        let link = state.file_system.get("/link").unwrap();
+        assert_matches!(&link.borrow().body, FileBody::Symlink { .. });
+    }
+
+    #[test]
+    fn open_symlink_no_follow_or_exclusive() {
+        let system = system_with_symlink();
+        let result = open_now(
+            &system,
+            c"/link",
+            OfdAccess::ReadOnly,
+            OpenFlag::NoFollow.into(),
+        );
+        assert_eq!(result, Err(Errno::ELOOP));
+        let result = open_now(
+            &system,
+            c"/link",
+            OfdAccess::WriteOnly,
+            OpenFlag::Create | OpenFlag::Exclusive,
+        );
+        assert_eq!(result, Err(Errno::EEXIST));
+    }
+
+    #[test]
+    fn open_follows_symlinks_in_directory_part() {
+        let system = system_with_symlink();
+        save_symlink(&system, "/dir_link", "/some");
+        save_symlink(&system, "/some/up", "..");
+        open_now(
+            &system,
+            c"/dir_link/file",
+            OfdAccess::ReadOnly,
+            EnumSet::empty(),
+        )
+        .unwrap();
+        open_now(
+            &system,
+            c"/dir_link/up/some/file",
+            OfdAccess::ReadOnly,
+            EnumSet::empty(),
+        )
+        .unwrap();
+        let stat = system.fstatat(Fd(0), c"/dir_link/file", false).unwrap();
+        assert_eq!(stat.r#type, FileType::Regular);
+        let stat = system.fstatat(Fd(0), c"/dir_link", false).unwrap();
+        assert_eq!(stat.r#type, FileType::Symlink);
+        let stat = system.fstatat(Fd(0), c"/dir_link/", false).unwrap();
+        assert_eq!(stat.r#type, FileType::Directory);
+        let result = system.fstatat(Fd(0), c"/link/", false);
+        assert_eq!(result, Err(Errno::ENOTDIR));
+    }
+
+    #[test]
+    fn open_creates_file_through_symlinks() {
+        let system = system_with_symlink();
+        save_symlink(&system, "/dir_link", "some");
+        save_symlink(&system, "/dangling", "dir_link/new2");
+        open_now(
+            &system,
+            c"/dir_link/new1",
+            OfdAccess::WriteOnly,
+            OpenFlag::Create.into(),
+        )
+        .unwrap();
+        open_now(
+            &system,
+            c"/dangling",
+            OfdAccess::WriteOnly,
+            OpenFlag::Create.into(),
+        )
+        .unwrap();
+
+        let state = system.state.borrow();
+        let link = state.file_system.get("/dir_link").unwrap();
+        assert_matches!(&link.borrow().body, FileBody::Symlink { .. });
+        let link = state.file_system.get("/dangling").unwrap();
+        assert_matches!(&link.borrow().body, FileBody::Symlink { .. });
+        let file = state.file_system.get("/some/new1").unwrap();
+        assert_matches!(&file.borrow().body, FileBody::Regular { .. });
+        let file = state.file_system.get("/some/new2").unwrap();
+        assert_matches!(&file.borrow().body, FileBody::Regular { .. });
+    }
+
+    #[test]
+    fn open_symlink_loop() {
+        let system = VirtualSystem::new();
+        save_symlink(&system, "/a", "b");
+        save_symlink(&system, "/b", "a");
+        let result = open_now(&system, c"/a", OfdAccess::ReadOnly, EnumSet::empty());
+        assert_eq!(result, Err(Errno::ELOOP));
+        let result = open_now(&system, c"/a/x", OfdAccess::ReadOnly, EnumSet::empty());
+        assert_eq!(result, Err(Errno::ELOOP));
     }
 
     #[test]
